@@ -1650,6 +1650,8 @@ def judge_c20(ops, impl):
             f = fields(obs); m = shadow[int(toks[1])]
             if int(f['count']) != len(m) or dict(decM(f['range'])) != m:
                 bad.append((i, 'Count/Range %s disagree with the map %r' % (obs, m)))
+            if f.get('nested', 'ok') != 'ok':
+                bad.append((i, 'a Range started inside the callback of another Range on the same parameters: %s (Count=%s)' % (f['nested'], f['count'])))
         elif toks[0] == 'ctx-acc' and int(toks[1]) in shadow:
             f = fields(obs); m = shadow[int(toks[1])]; k = decB(toks[2]); v = m.get(k)
             ds, di, du, db, df = toks[3], toks[4], toks[5], toks[6], toks[7]
